@@ -45,10 +45,10 @@ ValPool == [k \in 1..Len(Values) |-> Parse(Values[k])]
 BuiltinList == IF Mode = "builtins" THEN ndJsonDeserialize(IOEnv.VERIF_BUILTINS) ELSE <<>>
 
 ASSUME InitRegisters
-ASSUME TLCSet(3, Pool)
-ASSUME TLCSet(4, NestT)
-ASSUME TLCSet(5, ValPool)
-ASSUME TLCSet(6, BuiltinList)
+ASSUME TLCSet(3, Norm(Pool))
+ASSUME TLCSet(4, Norm(NestT))
+ASSUME TLCSet(5, Norm(ValPool))
+ASSUME TLCSet(6, Norm(BuiltinList))
 
 RECURSIVE Pow(_, _)
 Pow(b, e) == IF e = 0 THEN 1 ELSE b * Pow(b, e - 1)
